@@ -42,6 +42,16 @@ def plan(tier):
                  (3, [("dense", 1, 4)], MENU_LIST_T),
                  (4, [("dense", 1, 3)], MENU_LIST_T[:2])]
     tasks, descs = [], []
+    mixed_ks = (8,) if tier == "quick" else (8, 10)
+    for be in ("py", "pyx"):
+        for sh in range(32):
+            tasks.append({"backend": be, "mode": "mixed", "ks": list(mixed_ks), "shard": sh,
+                          "nshards": 32})
+    descs.append({"regime": "mixed-rate triples", "clocks": list(mixed_ks),
+                  "states": pairs.mixed_rate_count(mixed_ks), "menu_max_tau_MRTS": [[None, "auto"]],
+                  "index_selections": [None, [2, 0, 1]],
+                  "what": "two sparse trains x {empty, every tick, every second tick}, MRTS='auto' "
+                          "(pooled threshold of the whole list)"})
     for N, regimes, menu in specs:
         sel = "all"
         if N == 4 and tier == "quick":
@@ -176,7 +186,14 @@ def eval_list(r, trains, edges, idx, max_tau, mrts, be, rank=()):
     ets, ete = O.ex(ts), O.ex(te)
     E = [O.exl(trains[i]) for i in sel]
     emt = O.ex(max_tau) if max_tau else 0
-    em = O.ex(mrts)
+    if mrts == "auto":
+        # the pooled RMS threshold of the whole reconciled list (C15)
+        from fractions import Fraction
+        import math
+        pool = O.isi_lengths_pool([O.exl(t) for t in trains], ets, ete)
+        em = Fraction(math.sqrt(float(Fraction(sum(p * p for p in pool), len(pool)))))
+    else:
+        em = O.ex(mrts)
     r.evaluations += 1
     r.traces += 1
     kw = dict(max_tau=max_tau, MRTS=mrts)
@@ -314,6 +331,18 @@ SEL = {3: selections(3), 4: selections(4),
 
 
 def run_task(task):
+    if task.get("mode") == "mixed":
+        r = Result()
+        for k, masks in pairs.mixed_rate_triples(tuple(task["ks"]), 2, task["shard"],
+                                                 task["nshards"]):
+            r.states += 1
+            r.transitions += 1
+            r.sigs.add(lattice.signature(k, masks))
+            trains, edges = pairs.trains_edges(k, masks)
+            for si, idx in enumerate((None, [2, 0, 1])):
+                eval_list(r, trains, edges, idx, None, "auto", task["backend"],
+                          (k, pairs.nspikes(masks), si))
+        return r
     return pairs.run_states(task, check_state, ID)
 
 
